@@ -18,6 +18,7 @@ Spec  : the documented domain (Spec/Domains.v, extracted: fid 5/7) applied to th
         accept/reject and returned configuration; idempotence replayed on the real code."""
 import copy
 import inspect
+import json
 
 from harness import core
 from harness import jsonwire as jw
@@ -32,7 +33,9 @@ RULE = ("(a)/(b): every (built-in class, parameter) x the value pool {boundary-1
         "pipelines with random subsets of parameters, ~15% out-of-domain values, random suffixes, mono/multiband "
         "images, list/grid disparity sources; (d) sequences of 2-4 pipelines over a common pool of step names (filter / "
         "refinement / validation, with suffixes, in different orders, with and without validation) checked one after "
-        "the other by ONE machine object.  A case is non-trivial when it sets at least one parameter besides the "
+        "the other by ONE machine object; (e) update_conf(default, user) itself on random nested dictionaries over a common "
+        "key pool (depth <= 4; dictionary over scalar / None / list default, empty dictionary over scalar, scalar over "
+        "dictionary, new keys, the three strings at any depth).  A case is non-trivial when it sets at least one parameter besides the "
         "method; distinct by (class, parameter, value) or by the whole configuration")
 ASSUMES = [
     "json-checker 2.0.0 semantics (And without short circuit, Or's filtering by exact type, the list rule, missing / "
@@ -262,11 +265,126 @@ def run(ctx):
     if replay is None or replay.get("level") in ("pipeline", "machine_history"):
         random_pipelines(ctx, model, cc, PandoraMachine, methods, params, replay)
 
+    # ------------------------------------------------------------------ (e) update_conf itself
+    if replay is None or replay.get("level") == "update_conf":
+        update_conf_stream(ctx, model, cc, replay)
+
     ctx.gen_obligations = ["every generated parameter schema accepts exactly its documented domain (Props/C05.v, re-proved "
                            "on the regenerated Gen/Schemas.v by lia/lra/case analysis)",
                            "defaults of the generated prologues = documented defaults (vm_compute)"]
     ctx.notes.append("observations (not violations): guide vs code on eta upper bound, ambiguity_threshold end points, "
                      "ambiguity_kernel_size parity, 'mc_cnn' spelling, three defaults (O1): see Spec/Domains.v guide_notes")
+
+
+UC_KEYS = ["input", "left", "nodata", "a", "b", "pipeline"]
+UC_LEAVES = [1, -9999, 0, 2.5, None, "x", "NaN", "inf", "-inf", "", True, [1, 2], [], ["NaN"], [{"a": "NaN"}], NAN]
+
+
+def uc_dict(rng, depth):
+    """a random nested dictionary over a small key pool (so that the default and the user one collide)"""
+    d = {}
+    for k in rng.sample(UC_KEYS, rng.randrange(0, 4)):
+        r = rng.random()
+        if depth > 0 and r < 0.45:
+            d[k] = uc_dict(rng, depth - 1)
+        elif r < 0.55:
+            d[k] = {}
+        else:
+            d[k] = copy.deepcopy(rng.choice(UC_LEAVES))
+    return d
+
+
+def uc_collisions(ctx, dflt, user):
+    for k, v in user.items():
+        if k not in dflt:
+            ctx.count("uc_new_key")
+        elif isinstance(v, dict) and isinstance(dflt[k], dict):
+            ctx.count("uc_dict_over_dict")
+            uc_collisions(ctx, dflt[k], v)
+        elif isinstance(v, dict):
+            ctx.count("uc_empty_dict_over_scalar" if not v else "uc_dict_over_scalar")
+        elif isinstance(dflt[k], dict):
+            ctx.count("uc_scalar_over_dict")
+        else:
+            ctx.count("uc_scalar_over_scalar")
+
+
+def uc_kept(user, out):
+    """the property sentence 'every user-supplied key keeps its value' (three strings read as floats), at every
+    depth: None when it holds, else the path of the first user key that lost its value"""
+    if not isinstance(out, dict):
+        return "<not a dictionary>"
+    for k, v in user.items():
+        if k not in out:
+            return k
+        if isinstance(v, dict):
+            sub = uc_kept(v, out[k])
+            if sub is not None:
+                return k + "." + sub
+        elif jw.to_wire(out[k]) != jw.to_wire(conv(v)):
+            return k
+    return None
+
+
+def uc_defaults_kept(dflt, user, out):
+    """a default the user did not override is still there, in its position (the defaults' keys come first)"""
+    if list(out)[:len(dflt)] != list(dflt):
+        return "<order>"
+    for k, v in dflt.items():
+        if k not in user:
+            if jw.to_wire(out[k]) != jw.to_wire(v):
+                return k
+        elif isinstance(v, dict) and isinstance(user[k], dict):
+            sub = uc_defaults_kept(v, user[k], out[k])
+            if sub is not None:
+                return k + "." + sub
+    return None
+
+
+def update_conf_stream(ctx, model, cc, replay):
+    """check_configuration.update_conf(default, user) against Model/Json.v update_conf (fid 3) on random nested
+    dictionaries, and the property's 'keeps its value' read on the real result"""
+    rng = ctx.rng
+    if replay is not None:
+        cases = [(jw.unshow(replay["default"]), jw.unshow(replay["user"]))]
+    else:
+        cases = [({"input": {"left": {"nodata": -9999, "mask": None}, "right": {"nodata": -9999, "disp": None}}},
+                  {"input": {"left": {"nodata": {}, "img": "l.tif"}, "right": {"disp": {}, "mask": {"a": "NaN"}}}}),
+                 ({"a": 1}, {"a": {}}), ({"a": 1}, {"a": {"b": {}}}), ({"a": None}, {"a": {"b": "inf"}}),
+                 ({"a": {"b": 1}}, {"a": 5}), ({"a": {"b": 1}}, {"a": {}}), ({}, {"a": {}}), ({"a": [1]}, {"a": {"b": 2}})]
+        for _ in range(400 if ctx.tier == "quick" else 8000):
+            cases.append((uc_dict(rng, 3), uc_dict(rng, 3)))
+    res = model.batch([(3, [jw.to_wire(d), jw.to_wire(u)]) for d, u in cases])
+    for (dflt, user), m in zip(cases, res):
+        rp = {"level": "update_conf", "default": jw.show(dflt), "user": jw.show(user)}
+        d0, u0 = jw.to_wire(dflt), jw.to_wire(user)
+        try:
+            out = cc.update_conf(dflt, user)
+            impl = [1, jw.to_wire(out)]
+        except Exception as exc:  # pylint: disable=broad-except
+            out = None
+            impl = [0]
+            ctx.count("uc_raised_" + pu.exc_class(exc))
+        ctx.traces += 1
+        ctx.case(("uc", json.dumps([d0, u0])) if user else None)
+        ctx.count("update_conf_cases")
+        uc_collisions(ctx, dflt, user)
+        if impl != m:
+            ctx.mismatch("update_conf", rp, impl if out is None else [1, jw.show(out)], m)
+        if jw.to_wire(dflt) != d0 or jw.to_wire(user) != u0:
+            ctx.violation("user_dict_mutated", "update_conf changed one of its arguments", rp)
+        if out is None:
+            ctx.violation("update_conf_raises", "update_conf raised on two dictionaries: the user's value is neither "
+                          "kept nor left to the schema", rp)
+            continue
+        lost = uc_kept(user, out)
+        if lost is not None:
+            ctx.violation("update_conf_user_value_not_kept", f"the user's value at {lost} is not in the merged "
+                          "configuration (three strings read as floats apart)", rp)
+        gone = uc_defaults_kept(dflt, user, out)
+        if gone is not None:
+            ctx.violation("update_conf_default_lost", f"the default at {gone} was not overridden by the user but is "
+                          "not in the merged configuration / not in its position", rp)
 
 
 def spec_check_step(ctx, kind, mname, cfg, m_spec, ok, returned, bandsL, bandsR, rp):
